@@ -360,7 +360,15 @@ def raw_lumps(W: dict) -> Dict[int, bytes]:
     pverts = bytearray()
     pinds = bytearray()
     nv = ni = 0
+    runs: List[Tuple[int, int]] = []
     for p in W['primitives']:
+        if p.get('same_run_as') is not None:
+            # two primitives pointing at one run of PRIMINDICES / PRIMVERTS
+            si, sv = runs[p['same_run_as']]
+            runs.append((si, sv))
+            prim += struct.pack(L['prim'], p['type'], si, len(p['indices']), sv, len(p['verts']))
+            continue
+        runs.append((ni, nv))
         prim += struct.pack(L['prim'], p['type'], ni, len(p['indices']), nv, len(p['verts']))
         for v in p['verts']:
             pverts += struct.pack('<3f', *v)
@@ -597,7 +605,8 @@ def gen_face(rng, L: dict, W: dict, orig: int) -> dict:
 def gen_world(rng, layout: str, **opt: Any) -> dict:
     """Build a small, internally consistent world.  Options (all optional, else drawn from rng):
     scale 0..3, sep 'comma'|'esc'|'none', hdr 'same'|'none'|'diff', faceids 'full'|'empty', zero_vertex bool,
-    lzma bool, lzma_game bool, sprp <version name>, vis 'none'|'small'|'wide', frac_bounds bool (chaos only)."""
+    lzma bool, lzma_game bool, sprp <version name>, vis 'none'|'small'|'wide', frac_bounds bool (chaos only),
+    dups bool (a good share of the entries of every table become exact copies of an earlier entry, see apply_dups)."""
     L = LAYOUTS[layout]
     scale = opt.get('scale', rng.choice((0, 1, 1, 2, 2, 3)))
     W: Dict[str, Any] = {'layout': layout, 'version': L['version'], 'revision': rng.randint(0, 100000)}
@@ -820,10 +829,219 @@ def gen_world(rng, layout: str, **opt: Any) -> dict:
         # lumps whose views parse to nothing on this layout, but which the format does not forbid to hold data
         W['unused_view_lumps'] = {idx: rbytes(rng, rng.choice((8, 40, 112))) for idx in
                                   (L_ORIGINALFACES, L_FACES_HDR, L_PRIMITIVES, L_PRIMVERTS, L_PRIMINDICES) if rng.random() < 0.7}
+    if opt.get('dups', False):
+        W['_names_before_dups'] = list(W['texstrings'])
+        apply_dups(rng, W, L)
     # a compressed lump must be non-empty to be marked as such in the directory
     present = raw_lumps(W)
     W['compressed'] = {i for i in W['compressed'] if present.get(i)}
     return W
+
+
+def apply_dups(rng, W: dict, L: dict) -> None:
+    """Make many table entries exact copies of an earlier entry of the same table (also at non-adjacent indexes), and
+    let index runs be shared, nested (prefix / suffix) or repeated.  All cross references stay valid; list lengths only
+    grow.  The de-duplicating index builders of the writers (find_or_insert / find_or_extend, the texture-name table,
+    the model-name and sprite dictionaries) see equal-but-distinct entries, which a fresh random draw never produces."""
+    import copy
+    stats: Dict[str, int] = {}
+
+    def note(what: str, n: int = 1) -> None:
+        stats[what] = stats.get(what, 0) + n
+
+    def copy_over(name: str, lst: list, lo: int = 0, frac: float = 0.45, keep: Tuple[int, ...] = ()) -> List[Tuple[int, int]]:
+        done = []
+        for k in range(lo + 1, len(lst)):
+            if k in keep or rng.random() >= frac:
+                continue
+            j = rng.randrange(lo, k)
+            lst[k] = copy.deepcopy(lst[j])
+            done.append((k, j))
+            note(name)
+        return done
+
+    copy_over('planes', W['planes'])
+    zero = W['edges'][0][0]
+    copy_over('vertexes', W['vertexes'], keep=(zero,))
+    for k in range(2, len(W['edges'])):  # edge 0 is the unused dummy
+        r = rng.random()
+        j = rng.randrange(1, k)
+        if r < 0.3:
+            W['edges'][k] = W['edges'][j]
+            note('edges_equal')
+        elif r < 0.55:
+            W['edges'][k] = (W['edges'][j][1], W['edges'][j][0])
+            note('edges_reversed')
+    # texture names: exact duplicates and duplicates up to letter case; several texdata on one material
+    names = W['texstrings']
+    for _ in range(rng.randint(1, 3)):
+        src = rng.choice(names)
+        if rng.random() < 0.5 or src.swapcase() == src or len(src) >= 127:
+            names.insert(rng.randint(0, len(names)), src)
+            note('texture_names_equal')
+        else:
+            names.append(src.swapcase())
+            note('texture_names_case_variant')
+    # re-aim the texdata entries (the insertions above moved indexes): by name, and onto the LAST member of a class of
+    # names that differ in letter case only - the table is documented case-insensitive, so which spelling a material
+    # reads back with is only defined for that member (generator restriction)
+    old_names = W.pop('_names_before_dups')
+    for td in W['texdata']:
+        want = old_names[td['name']]
+        cls = [i for i, n in enumerate(names) if n.casefold() == want.casefold()]
+        exact = [i for i in cls if names[i] == want]
+        td['name'] = cls[-1] if any(names[i] != want for i in cls) else rng.choice(exact)
+    for k, j in copy_over('texdata', W['texdata']):
+        if rng.random() < 0.5:  # same material, different numbers
+            W['texdata'][k]['refl'] = [abs(rfloat(rng, False)) for _ in range(3)]
+            note('texdata_same_material')
+    copy_over('texinfo', W['texinfo'])
+    for k in range(1, len(W['primitives'])):
+        r = rng.random()
+        j = rng.randrange(k)
+        if W['primitives'][j].get('same_run_as') is not None:
+            continue
+        if r < 0.3:
+            W['primitives'][k] = dict(copy.deepcopy(W['primitives'][j]), same_run_as=j)
+            note('primitives_shared_run')
+        elif r < 0.5:
+            W['primitives'][k] = copy.deepcopy(W['primitives'][j])
+            note('primitives_equal')
+    copy_over('orig_faces', W['orig_faces'])
+    pairs = copy_over('faces', W['faces'])
+    if len(W['hdr_faces']) == len(W['faces']):
+        for k, j in pairs:
+            W['hdr_faces'][k] = copy.deepcopy(W['hdr_faces'][j])
+    else:
+        copy_over('hdr_faces', W['hdr_faces'])
+    # brushes: the same run of sides, an equal run stored twice, a run nested in another one
+    sides, brushes = W['brushsides'], W['brushes']
+    for k in range(1, len(brushes)):
+        r = rng.random()
+        bj = brushes[rng.randrange(k)]
+        bk = brushes[k]
+        if r < 0.2:
+            bk['first_side'], bk['num_sides'] = bj['first_side'], bj['num_sides']
+            note('brushes_same_run')
+        elif r < 0.45 and bj['num_sides'] and bk['num_sides']:
+            n = min(bj['num_sides'], bk['num_sides'])
+            for i in range(n):
+                sides[bk['first_side'] + i] = dict(sides[bj['first_side'] + i])
+            bk['num_sides'] = n
+            note('brushes_equal_sides')
+        elif r < 0.6 and bj['num_sides'] >= 2:
+            off = rng.randint(0, 1)
+            bk['first_side'], bk['num_sides'] = bj['first_side'] + off, bj['num_sides'] - 1
+            note('brushes_nested_run')
+        if rng.random() < 0.3:
+            bk['contents'] = bj['contents']
+    copy_over('waterdata', W['waterdata'])
+    leafs = W['leafs']
+    for k in range(1, len(leafs)):
+        r = rng.random()
+        lj, lk = leafs[rng.randrange(k)], leafs[k]
+        if r < 0.2:
+            leafs[k] = dict(lj)
+            note('leafs_equal')
+        elif r < 0.5:
+            for first, num in (('first_face', 'num_faces'), ('first_brush', 'num_brushes')):
+                if lj[num] >= 2 and rng.random() < 0.6:
+                    off = rng.randint(0, 1)  # 0: prefix of the other run, 1: suffix
+                    lk[first], lk[num] = lj[first] + off, lj[num] - 1
+                    note('leaf_runs_nested')
+                else:
+                    lk[first], lk[num] = lj[first], lj[num]
+                    note('leaf_runs_shared')
+    # repeated entries inside the index arrays themselves
+    for arr, what in ((W['leaffaces'], 'leaffaces_repeated'), (W['leafbrushes'], 'leafbrushes_repeated')):
+        for k in range(1, len(arr)):
+            if rng.random() < 0.3:
+                arr[k] = arr[k - 1]
+                note(what)
+    nodes = W['nodes']
+    heads = {m['headnode'] for m in W['models']}
+    for k in range(1, len(nodes)):
+        j = rng.randrange(k)
+        if rng.random() < 0.3 and all(c < 0 for c in nodes[j]['children']) and k not in heads:
+            nodes[k] = copy.deepcopy(nodes[j])
+            note('nodes_equal')
+    copy_over('cubemaps', W['cubemaps'])
+    copy_over('overlays', W['overlays'])
+    for o in W['overlays']:
+        if o['faces'] and rng.random() < 0.4:
+            o['faces'] = [o['faces'][0]] * len(o['faces'])
+            note('overlay_faces_repeated')
+    # entities that are exact copies (never worldspawn)
+    ents = W['ents']
+    for k in range(2, len(ents)):
+        if rng.random() < 0.4:
+            ents[k] = copy.deepcopy(ents[rng.randrange(1, k)])
+            note('ents_equal')
+    if len(ents) >= 2 and rng.random() < 0.7:
+        ents.insert(rng.randint(1, len(ents)), copy.deepcopy(ents[rng.randrange(1, len(ents))]))
+        note('ents_equal')
+    # a brush model may have lost its only reference through the copies above: restore it
+    refs = {int(v[1:]) for e in ents[1:] for k_, v in e['keys'] if k_.casefold() == 'model' and v.startswith('*')}
+    for m in range(1, len(W['models'])):
+        if m not in refs:
+            ents.append({'keys': [('classname', 'func_brush'), ('model', f'*{m}')], 'outs': []})
+    # static props: model names stored twice, equal props, shared and repeated leaf runs
+    sp = W['sprp']
+    if sp['props']:
+        for _ in range(rng.randint(1, 2)):
+            sp['models'].append(rng.choice(sp['models']))
+            note('sprp_model_names_equal')
+        if rng.random() < 0.6:  # the dictionary stores the strings as given: a spelling in another case is another entry
+            sp['models'].append(rng.choice(sp['models']).swapcase())
+            sp['props'][rng.randrange(len(sp['props']))]['model'] = len(sp['models']) - 1
+            note('sprp_model_names_case_variant')
+        for p in sp['props']:
+            if rng.random() < 0.5:
+                same = [i for i, n in enumerate(sp['models']) if n == sp['models'][p['model']]]
+                p['model'] = rng.choice(same)
+        for k in range(1, len(sp['props'])):
+            r = rng.random()
+            pj = sp['props'][rng.randrange(k)]
+            if r < 0.3:
+                sp['props'][k] = copy.deepcopy(pj)
+                note('sprp_props_equal')
+            elif r < 0.5:
+                sp['props'][k]['first_leaf'], sp['props'][k]['leaf_count'] = pj['first_leaf'], pj['leaf_count']
+                note('sprp_leaf_run_shared')
+            elif r < 0.7:
+                run = sp['leaves'][pj['first_leaf']:pj['first_leaf'] + pj['leaf_count']]
+                sp['props'][k]['first_leaf'], sp['props'][k]['leaf_count'] = len(sp['leaves']), len(run)
+                sp['leaves'] += run
+                sp['props'][k]['model'] = pj['model']
+                note('sprp_leaf_run_repeated')
+    dp = W['dprp']
+    if dp['props']:
+        if dp['models']:
+            dp['models'].append(rng.choice(dp['models']))
+            note('dprp_model_names_equal')
+            if rng.random() < 0.6:
+                dp['models'].append(rng.choice(dp['models']).swapcase())
+                for p in dp['props']:
+                    if p['type'] == 0 and rng.random() < 0.5:
+                        p['index'] = len(dp['models']) - 1
+                note('dprp_model_names_case_variant')
+        if dp['sprites']:
+            dp['sprites'].append(list(rng.choice(dp['sprites'])))
+            note('dprp_sprites_equal')
+        for p in dp['props']:
+            table = dp['models'] if p['type'] == 0 else dp['sprites']
+            if rng.random() < 0.5:
+                p['index'] = rng.choice([i for i, x in enumerate(table) if x == table[p['index']]])
+        copy_over('dprp_props', dp['props'])
+    vis = W['visibility']
+    if vis is not None and vis['clusters'] >= 2:
+        for name in ('pvs', 'pas'):
+            for k in range(1, vis['clusters']):
+                if rng.random() < 0.5:
+                    j = rng.randrange(k)
+                    vis[name][k], vis[name + '_enc'][k] = vis[name][j], vis[name + '_enc'][j]
+                    note('visibility_rows_equal')
+    W['dups'] = stats
 
 
 def kv_text(tree: list, rng) -> str:
